@@ -30,7 +30,27 @@ FIELD_TYPES = [
     FT('StdVec', sx.tpath(['std', 'vec', sx.seg('Vec', ('angle', [sx.gty(T)]))], lead=True),
        '::std::vec::Vec<T>', 'vec![1i32]', 'vec![]', needs=('T',)),
 ]
+# more syntactic forms of field types (each with values, so the compiled oracles can use them too)
+FIELD_TYPES += [
+    FT('RefU8', sx.tref(U8, lt='a'), "&'a u8", '&1u8', '&2u8', needs=("'a",)),
+    FT('ParenU8', sx.tparen(U8), '(u8)', '3u8', '4u8'),
+    FT('ArrT', sx.tarray(T, sx.clit('2')), '[T; 2]', '[1u8, 2]', '[3u8, 4]', needs=('T',)),
+    FT('LeadOpt', sx.tpath(['core', 'option', sx.seg('Option', ('angle', [sx.gty(T)]))], lead=True),
+       '::core::option::Option<T>', 'Some(1u8)', 'None::<u8>', needs=('T',)),
+    FT('RefRef', sx.tref(sx.tref(U8, lt='a'), lt='a'), "&'a &'a u8", '&&1u8', '&&2u8', needs=("'a",)),
+]
 FT_BY_NAME = dict((f.name, f) for f in FIELD_TYPES)
+# forms without usable values (token-level generators only)
+TOKEN_FIELD_TYPES = FIELD_TYPES + [
+    FT('RefDyn', sx.tref(sx.tparen(sx.tdyn([sx.tb_trait(['core', 'fmt', 'Debug'], lead=True), sx.tb_trait(['Sync'])])), lt='a'),
+       "&'a (dyn ::core::fmt::Debug + Sync)", '', '', needs=("'a",)),
+    FT('FnPtr', sx.tfn([U8, T], U8), 'fn(u8, T) -> u8', '', '', needs=('T',)),
+    FT('FnPtr0', sx.tparen(sx.tfn([U8], U8)), '(fn(u8) -> u8)', '', ''),
+    FT('RawPtr', sx.tptr(T), '*const T', '', '', needs=('T',)),
+    FT('SliceRef', sx.tref(sx.tslice(T), lt='a'), "&'a [T]", '', '', needs=("'a", 'T')),
+    FT('Never', sx.tgen('Option', sx.tnever()), 'Option<!>', '', ''),
+    FT('SelfBox', sx.tgen('Option', sx.tgen('Box', sx.tid('Self'))), 'Option<Box<Self>>', '', ''),
+]
 
 
 def generics_for(needs, rng=None, style=0):
